@@ -573,7 +573,7 @@ def check_fill(prop: str, res: Result, repo: Repo):
     lst, tfp = params[0], params[1]
     ctor = [c for c in calls_in(fn) if call_target(c) == "Candle"]
     if len(ctor) != 1:
-        res.fail(rule, finding(prop, rule, fm, fn, "fill_missing_candles must create the fill candle with one Candle(...) call", construct="fill: constructor"))
+        res.errors.append(f"{fm.where}: fill_missing_candles does not create the fill candle with exactly one Candle(...) call: the fill rules cannot be applied to this shape")
         return
     # resolve local aliases flow-insensitively: name -> expression text
     alias = {}
@@ -586,10 +586,21 @@ def check_fill(prop: str, res: Result, repo: Repo):
         cursor = ast.unparse(ins[0].args[0])
     prev_names = [k for k, v in alias.items() if v == {f"{lst}[{cursor} - 1]"}] if cursor else []
     if not cursor or not prev_names:
-        res.fail(rule, finding(prop, rule, fm, fn, "cannot identify the insertion cursor and the preceding candle in fill_missing_candles", construct="fill: cursor / previous candle"))
+        res.errors.append(f"{fm.where}: cannot identify the insertion cursor and the preceding candle in fill_missing_candles (a different fill algorithm): the fill rules cannot be applied to this shape")
         return
     P = prev_names[0]
-    kws = {k.arg: ast.unparse(k.value) for k in ctor[0].keywords}
+    order = ["open", "high", "low", "close", "volume", "timestamp"]
+    kwn = dict(zip(order, ctor[0].args))
+    kwn.update({k.arg: k.value for k in ctor[0].keywords})
+
+    def _res(e):
+        """text of an argument with single-definition locals replaced by their definition"""
+        t = ast.unparse(e)
+        if isinstance(e, ast.Name) and len(alias.get(e.id, ())) == 1:
+            t = next(iter(alias[e.id]))
+        return t
+
+    kws = {k: _res(v) for k, v in kwn.items()}
     want = {"open": f"{P}.close", "close": f"{P}.close", "high": f"{P}.close", "low": f"{P}.close", "volume": "0", "timestamp": f"{P}.timestamp + {tfp}"}
     for k, v in want.items():
         got = kws.get(k)
@@ -597,7 +608,7 @@ def check_fill(prop: str, res: Result, repo: Repo):
             res.ok(rule, {"site": fm.where, "fill candle": f"{k} = {got}"}, nontrivial=f"fill:{k}")
         else:
             res.fail(rule, finding(prop, rule, fm, ctor[0], f"the inserted candle must have {k} = {v} (flat at the previous close, zero volume, one timeframe after the previous candle); found {got}", construct=f"fill candle {k}={got}"))
-    if ast.unparse(ins[0].args[1]) in alias and alias[ast.unparse(ins[0].args[1])] == {ast.unparse(ctor[0])}:
+    if (ast.unparse(ins[0].args[1]) in alias and alias[ast.unparse(ins[0].args[1])] == {ast.unparse(ctor[0])}) or ins[0].args[1] is ctor[0]:
         res.ok(rule, {"site": fm.where, "insert": f"{lst}.insert({cursor}, <fill candle>)"})
     else:
         res.fail(rule, finding(prop, rule, fm, ins[0], "the fill candle is not what gets inserted at the cursor"))
@@ -605,12 +616,25 @@ def check_fill(prop: str, res: Result, repo: Repo):
     it = HeapInterp(repo, fm.module)
     st = State()
     st.env.update({"self": Obj("obj", "self"), lst: Obj("list", "L"), tfp: Num(A("sym", "TF")), cursor: Num(A("sym", "i")), P: Obj("obj", "prev")})
-    tests = [n for n in ast.walk(fn) if isinstance(n, ast.If) and ctor[0] in list(ast.walk(n))]
-    if len(tests) != 1:
-        res.fail(rule, finding(prop, rule, fm, fn, "the fill candle is not created under exactly one gap test", construct="fill: gap test"))
+    tests = [n for n in ast.walk(fn) if isinstance(n, ast.If) and any(ctor[0] in list(ast.walk(b)) for b in n.body)]
+    if not tests:
+        res.errors.append(f"{fm.where}: the fill candle is not created under a gap test the analysis can find: the fill rules cannot be applied to this shape")
     else:
+        # nested ifs: the candle is created when all of them hold
+        test_expr = tests[0].test if len(tests) == 1 else ast.BoolOp(op=ast.And(), values=[t.test for t in tests])
+        # single-definition locals used by the test (e.g. `expected = prev.timestamp + timeframe`) are replaced by their definition
+        class _Al(ast.NodeTransformer):
+            def visit_Name(self, node):
+                if isinstance(node.ctx, ast.Load) and node.id not in (P, cursor, lst, tfp) and len(alias.get(node.id, ())) == 1:
+                    return ast.parse(next(iter(alias[node.id])), mode="eval").body
+                return node
+
+        import copy as _copy
+
+        test_expr = _Al().visit(_copy.deepcopy(test_expr))
+        ast.fix_missing_locations(test_expr)
         conds = []
-        for truth, s2 in it.cond_paths(tests[0].test, st):
+        for truth, s2 in it.cond_paths(test_expr, st):
             if truth:
                 conds.append(tuple(c for c in s2.facts))
         cur_ts = A("attr", "L[i]", "timestamp")
